@@ -42,6 +42,27 @@ CHECKS = {
         note="Trusted: Coq kernel, extraction, driver, harness. Searches at comprehension level (see C01).",
         technique="Coq proof (laws of the model) + laws evaluated on the implementation + correspondence",
         design="5/C12"),
+    "C13": dict(
+        text="Theorems (Coq, EVERY call history, no length bound): the Rule builder refines an independent specification automaton that sees only call kinds; "
+             "a verdict (pass or AssertionError) is produced only for histories that supply subject, verb, import type and object/'anything', without should_not+other verb "
+             "and without 'anything'+should/should_only (C13_rule_history); unknown module names and non-matching regexes are errors for all 12 shapes (C13_unknown_name, C13_no_match); "
+             "LayerRule histories yield a verdict only with an architecture, one subject layer and a complete lowered rule; undefined layers are rejected at the call. "
+             "Tie to /repo: exhaustive call sequences (<=4 quick, <=5 thorough, 14 symbols) + random longer + every single mutation of 11 complete chains on the real Rule / LayerRule; "
+             "oracle on the real code: history rejected by the Python twin of the automaton => neither PASS nor AssertionError; model outcomes compared as well; "
+             "unknown names on random (level-limited) architectures; all 48 entry-point option combinations; DiagramRule without file / tags.",
+        note="Entry-point option validation and DiagramRule incompleteness are checked on the implementation only (finite enumeration); their Coq model is part of the scan/diagram stage. "
+             "Trusted: Coq kernel, extraction, driver, harness (incl. the Python twin automaton, cross-checked against the Coq one on every history).",
+        technique="Coq refinement proof (builder state machine vs specification automaton) + exhaustive history correspondence",
+        design="5/C13"),
+    "C16": dict(
+        text="Theorems (Coq, EVERY call history): an accepted LayeredArchitecture history defines exactly the layers/modules supplied, in order, with unique layer names, no module in two layers, "
+             "only the last layer possibly pending (C16_accepted_definition, invariant by induction over the history); a call is rejected, with a configuration error, exactly when it violates one of the four "
+             "documented conditions (C16_reject_at_call); string and list forms coincide; LayerRule: architecture first and once, exactly one subject layer, no subject batch. "
+             "Tie to /repo: exhaustive call sequences up to length 5 (quick) / 6 (thorough) over 9 symbols + random longer ones on the real classes: index of first rejected call, error family, str(architecture) "
+             "compared with the documented rules and with the model.",
+        note="Trusted: Coq kernel, extraction, driver, harness (parser of str(architecture)).",
+        technique="Coq invariant proof over builder histories + exhaustive history correspondence",
+        design="5/C16"),
     "C08": dict(
         text="Theorems (Coq, all patterns and all newline-free path strings, no bound): the glob->regex converter always emits a regex of the "
              "modelled fragment that parses back to (leading star, literal text, trailing star), and convert+re.match equals the documented "
